@@ -180,7 +180,7 @@ def run(ctx):
         return True
 
     # ---- A. elementary rotations: scalar, (n,) array, list input; angles in [-4pi, 4pi]
-    n_ang = 140 if q else 1500
+    n_ang = 100 if q else 1200
     angles = [gen_angle(rng) for _ in range(n_ang)]
     for k in (1, 2, 3):
         for deriv in (False, True):
@@ -209,7 +209,7 @@ def run(ctx):
                     fam["rot"].add(emit.pair(emit.z(k), emit.b(deriv), emit.dy(a), dys(m)), rep)
                     ctx.case(("rot", k, deriv, float(a), form), nontrivial=(a != 0.0), sample=rep if (k, deriv, i) == (3, False, 1) else None)
                     ctx.count(f"rot:{'d' if deriv else ''}R{k}:{form}")
-    n_grp = 150 if q else 1500
+    n_grp = 150 if q else 1200
     for _ in range(n_grp):
         k = rng.choice((1, 2, 3))
         a, b = gen_angle(rng) / 2, gen_angle(rng) / 2
@@ -225,7 +225,7 @@ def run(ctx):
         ctx.count(f"group:R{k}")
 
     # ---- B. enu2trs / trs2enu as functions of (lat, lon): scalar and (n,) arrays, poles and the date line included
-    n_ll = 200 if q else 2500
+    n_ll = 150 if q else 2000
     lls = [(la, lo) for la in LATS[:5] for lo in LONS[:5]][: (10 if q else 25)] + [gen_latlon(rng) for _ in range(n_ll)]
     lat_a, lon_a = np.array([x[0] for x in lls]), np.array([x[1] for x in lls])
     for to_trs, f, name in ((True, rotation.enu2trs, "rotation.enu2trs"), (False, rotation.trs2enu, "rotation.trs2enu")):
@@ -246,7 +246,7 @@ def run(ctx):
                 ctx.count(f"enu:{name.split('.')[1]}:{form}:{'pole' if abs(abs(la) - PI / 2) < 1e-9 else 'general'}")
 
     # ---- C. difference vectors through the data API, shapes (3,), (1,3), (n,3)
-    n_ref = 60 if q else 700
+    n_ref = 45 if q else 550
     for _ in range(n_ref):
         shape = rng.choice(["(3,)", "(1,3)", "(n,3)", "(n,3)"])
         n = 1 if shape != "(n,3)" else rng.randrange(2, 6)
@@ -297,7 +297,7 @@ def run(ctx):
                 ctx.case(("rt", fl(refs[i]), fl(dd), how), nontrivial=bool(np.any(dd)))
 
     # ---- D. along / cross / radial
-    n_orb = 30 if q else 400
+    n_orb = 30 if q else 320
     for _ in range(n_orb):
         shape = rng.choice(["(6,)", "(1,6)", "(n,6)", "(n,6)"])
         n = 1 if shape != "(n,6)" else rng.randrange(2, 5)
@@ -332,7 +332,7 @@ def run(ctx):
                 ctx.case(("rt-acr", fl(states[i]), fl(dd)), nontrivial=bool(dd.any()))
 
     # ---- E. azimuth / elevation / zenith distance
-    n_az = 80 if q else 800
+    n_az = 80 if q else 650
     for _ in range(n_az):
         shape = rng.choice(["(3,)", "(n,3)"])
         n = 1 if shape == "(3,)" else rng.randrange(2, 5)
@@ -377,6 +377,10 @@ def run(ctx):
         owner += [nme] * len(sh)
     ctx.log("cases: " + ", ".join(f"{n}={len(fam[n].terms)}" for n in names) + f"; {len(all_shards)} shards")
     vs = ctx.coq_cases(all_shards, REQ)
+    for i, v in enumerate(vs):        # a shard killed from outside (memory pressure of parallel builds) is re-run once, alone
+        if v is None:
+            ctx.notes.append(f"shard {i} ({owner[i]}) re-run after failure")
+            vs[i] = ctx.coq_cases([all_shards[i]], REQ)[0]
     for nme in names:
         mine = [v for v, o in zip(vs, owner) if o == nme]
         flat = emit.flatten_verdicts(mine, len(fam[nme].terms))
@@ -393,6 +397,11 @@ def run(ctx):
                             "PosVelArray.trs2acr of a single (6,) state stacks the along/cross/radial unit vectors as columns "
                             "(np.stack(axis=1)): trs2acr/acr2trs are swapped, .acr of a difference is not its along/cross/radial "
                             "components", rep)
+            elif v == 3 and rep.get("kind") == "azel":
+                ctx.count("quirk:elevation_nan_at_zenith")
+                ctx.finding("c06_elevation_nan_at_zenith",
+                            "elevation/zenith_distance are NaN for a target at the zenith or nadir: the rounded projection of the unit "
+                            "direction on Up exceeds 1 by an ulp and np.arcsin returns nan", rep)
             else:
                 ctx.violation(rep, what=f"midgard's result differs from the model ({rep.get('kind')}: {rep.get('how')})")
     for rep in other_mism:
